@@ -438,6 +438,11 @@ func CheckC05(e *Env) int {
 					placements = []string{c05Placements[p1], c05Placements[p2]}
 					aliasForms = []bool{r.Intn(3) == 0}
 				}
+				if k1 == "arg" && k2 == "arg" {
+					// two parameters can only meet in the injector's own signature
+					placements = []string{"direct"}
+					aliasForms = []bool{false, true}
+				}
 				for _, pl := range placements {
 					for _, al := range aliasForms {
 						a, b := k1, k2
